@@ -1,7 +1,6 @@
 SPECIFICATION Spec
 CONSTANTS
-  DefTTL = 6
-  Topos = {"chain2", "chain4", "chain6", "ytree5"}
+  Topos <- QuickTopos
   DumpFile = "ping_vectors.ndjson"
 INVARIANTS
   ReachIffVec
